@@ -296,6 +296,35 @@ def stepLine (line : String) : String :=
         | _ => List.replicate n 0
       s!"{showRats out.dState} {showRats out.finalRhs} {showRats out.stages.flatten} {showRats est} {fsal}"
     | _, _, _, _, _, _, _ => bad
+  -- fixedrun rk|split <method> <n> <kickmask or -> <terms> <eps> <tolEps> <t0> <tf> <dt> <y0> <ops: i<target> | r, comma separated> :
+  -- whole fixed-step run with states (DV.Run), exact; output: times ; states (oldest first, states flattened) ; dt ; status
+  | ["fixedrun", kind, name, n, mask, terms, eps, tolEps, t0, tf, dt, y0, ops] =>
+    match n.toNat?, parseList? (·.toNat?) mask, parseList? parseTerm? (terms.replace ";" ","), parseRat? eps, parseRat? tolEps,
+          parseRat? t0, parseRat? tf, parseRat? dt, parseList? parseRat? y0 with
+    | some n, some mask, some terms, some eps, some tolEps, some t0, some tf, some dt, some y0 =>
+      let vops := RK.listOpsN (α := Rat) n
+      let inc? : Option (Rat → List Rat → Rat → List Rat) :=
+        if kind == "rk" then
+          (Gen.allRK.find? (·.name == name)).map (fun T =>
+            Run.rkInc vops (polyRhs n terms) (T.c.map (tabRat T.K)) (T.A.map (·.map (tabRat T.K))) ((T.bs.headD []).map (tabRat T.K))
+              ((T.A.getLast?.getD []) == (T.bs.headD [])))
+        else
+          (Gen.allSplit.find? (·.name == name)).map (fun T =>
+            let mm : Rat → Rat → List Rat → List Rat := fun a b v => List.zipWith (fun x m => x * (if m == 1 then b else a)) v mask
+            Run.splitInc vops (polyRhs n terms) mm (T.drift.map (tabRat T.K)) (T.kick.map (tabRat T.K)))
+      match inc? with
+      | none => "unknown-method"
+      | some inc =>
+        let cfg : Loop.Cfg Rat := { eps := eps, tolEps := tolEps, half := 1/2 }
+        let step (s : Option (Run.SysY Rat (List Rat))) (op : String) : Option (Run.SysY Rat (List Rat)) :=
+          s.bind (fun s =>
+            if op == "r" then some (Run.reset s)
+            else if op.startsWith "i" then (parseRat? (op.drop 1).toString).map (fun t => Run.integrate cfg vops.add inc s t 100000)
+            else none)
+        match (ops.splitOn ",").foldl step (some (Run.construct t0 tf dt y0)) with
+        | none => bad
+        | some r => s!"{showRats r.sys.ts.reverse} ; {showRats r.ys.reverse.flatten} ; {showRat r.sys.dt} ; {r.sys.status}"
+    | _, _, _, _, _, _, _, _, _ => bad
   -- stageres <method> <n> <terms> <t> <y> <h> <stages flattened> : residual of the stage equations and the increment from given stages
   | ["stageres", name, n, terms, t, y, h, st] =>
     match Gen.allRK.find? (·.name == name), n.toNat?, parseList? parseTerm? (terms.replace ";" ","), parseRat? t,
